@@ -45,7 +45,23 @@ class ScenDevice(CliDevice):
                     out += self.junk.echo(b)
         return bytes(out)
 
+    withhold = None      # (command, n): print only the first n bytes of that command's response, keep the rest until release()
+    withheld = b""
+
     def _execute(self, raw: bytes) -> bytes:
+        out = self._execute_inner(raw)
+        if self.withhold is not None and raw.decode("utf-8", "replace").strip() == self.withhold[0]:
+            n = self.withhold[1]
+            self.withhold = None
+            self.withheld, out = out[n:], out[:n]
+        return out
+
+    def release(self) -> bytes:
+        """the device resumes printing what it had withheld"""
+        out, self.withheld = self.withheld, b""
+        return out
+
+    def _execute_inner(self, raw: bytes) -> bytes:
         line = raw.decode("utf-8", "replace")
         if self.asking is not None:
             cmd, idx = self.asking
@@ -124,6 +140,7 @@ class RunResult:
     dev_outputs: List[bytes] = field(default_factory=list)
     init_avail: bytes = b""
     unread: bytes = b""
+    abandoned: int = 0
     reads: List[bytes] = field(default_factory=list)
     device: Any = None
     conn: Any = None
@@ -262,16 +279,42 @@ def run_real(sc: Scenario) -> RunResult:
             return (r.result, r.raw_result, r.failed, r.channel_input)
         return r
 
+    def abandoned(op):
+        """the operation was given up while the device was silent in the middle of its output (a timeout with the connection
+        kept, a cancelled task): the device then prints the rest; the NEXT operations must be exact again"""
+        extra = dev.release()
+        t.buf += decorator(extra) if decorator else extra
+        res.abandoned += 1
+        return ("ABANDONED", b"", False, op[1])
+
     async def go_async():
         await conn.open()
         for op in sc.ops:
             res.unread_before.append(bytes(t.buf))
+            if op[0] == "abandon":
+                dev.withhold = (op[1].strip(), op[2])
+                try:
+                    await conn.send_command(op[1])
+                except SimStall:
+                    res.op_results.append(abandoned(op))
+                    continue
+                res.op_results.append(("NOT-ABANDONED", b"", False, op[1]))
+                continue
             res.op_results.append(rec(await _do(conn, op, True)))
 
     def go_sync():
         conn.open()
         for op in sc.ops:
             res.unread_before.append(bytes(t.buf))
+            if op[0] == "abandon":
+                dev.withhold = (op[1].strip(), op[2])
+                try:
+                    conn.send_command(op[1])
+                except SimStall:
+                    res.op_results.append(abandoned(op))
+                    continue
+                res.op_results.append(("NOT-ABANDONED", b"", False, op[1]))
+                continue
             res.op_results.append(rec(_do(conn, op, False)))
 
     try:
@@ -345,6 +388,8 @@ def model_request(sc: Scenario, res: RunResult) -> Optional[str]:
         prx = rx(res.prompt_pattern.encode(), flags)
     except RxUnsupported:
         return None
+    if res.abandoned:
+        return None      # an operation given up midway: judged by the oracle on the following operations, not replayed on the model
     ops, table = [], {}
     for name, a, kw, _r in res.chan_calls:
         if name == "get_prompt":
@@ -393,7 +438,8 @@ def real_reply(res: RunResult) -> str:
             parts.append(f"si={hexs(r[0])},{hexs(r[1])}")
         else:
             parts.append(f"ii={hexs(r[0])},{hexs(r[1])}")
-    return f"{';'.join(parts)} W={hexl(res.writes)} A={hexs(res.unread)}"
+    held = getattr(res.conn.channel, "_ansi_held", b"")     # beginning of an escape sequence cut by the last read (fix 'strip ansi across reads')
+    return f"{';'.join(parts)} W={hexl(res.writes)} A={hexs(res.unread)} H={hexs(held)}"
 
 
 def normalize(text: bytes) -> bytes:
